@@ -12,6 +12,8 @@ CONSTANTS
   MaxOps = 6
   MaxFaults = 1
   MaxData = 4
+  MaxLate = 0
+  TocAlts = {}
   IdMod = 255
   Bugs <- NoBugs
   WithSync = TRUE
